@@ -121,6 +121,8 @@ class Schedule(Target):
         if c_staged:
             staged.add(cons)
         graph = Graph(comps, edges).build()
+        # the controller may already have been told to stop (explored for <= 1 producer: the test is independent of them)
+        stop = c.one_of('stop_executing', [False, True]) if n <= 1 else False
 
         def fake_finish(c, comp, new_state):
             c.ghost['shutdown'].append((comp.specification.reference, new_state))
@@ -129,17 +131,19 @@ class Schedule(Target):
         def finalize(c, ready):
             c.ghost['ready'] = [x.specification.reference for x in ready]
         this = Obj('controller', comp_lock=threading.RLock(), _start_sleeping=False, _scheduler_sleeps=False,
-                   graph=graph, comp_done=done, comp_staged_in=staged, stop_executing=False, log=NULLLOG,
+                   graph=graph, comp_done=done, comp_staged_in=staged, stop_executing=stop, log=NULLLOG,
                    workflowGraph=Obj('wg', _placeholders={}),
                    _fake_finish_with_state=Extern('Controller._fake_finish_with_state', fake_finish),
                    finalize_submit_components=Extern('Controller.finalize_submit_components', finalize))
         return State(args=[this, set()], this=this, prods=prods, cons=cons, is_repeat=is_repeat, is_agg=is_agg, cstate=cstate,
-                     c_staged=c_staged, done=set(done))
+                     c_staged=c_staged, done=set(done), stop=stop)
 
     def ensures(self, c, st, out):
         g = c.ghost
         if out.kind == 'raise':
             return [('no-exception', False)]
+        if st.stop:
+            return [('nothing-is-submitted-once-the-controller-stops', g['ready'] is None)]
         ready = g['ready'] or []
         launched = 'stage1.c' in ready
         shut = [s for (n, s) in g['shutdown'] if n == 'stage1.c']
@@ -231,6 +235,149 @@ class FinishedCheck(Target):
                  Or(is_final(st.state), st.this.stop_executing is True, cstate_failed, st.sleeping))]
 
 
+class FinalizeSubmit(Target):
+    """From the ready list to comp.run(): Controller.finalize_submit_components stages in and launches EXACTLY the
+    components it was handed (the ready list computed by _schedule), launches only what it staged in during this call,
+    stops staging as soon as the controller stops executing, and records what it staged in comp_staged_in.
+    reactivex plumbing (merge / pipe / subscribe) is ghost registration with no effect on the launch decision."""
+    prop = 'C01'
+    name = 'Controller.finalize_submit_components'
+    file = CT
+    qualname = 'Controller.finalize_submit_components'
+    max_paths = 100000
+    trusted = ["reactivex merge/pipe/subscribe and report_exceptions only register callbacks (no component is staged or run by "
+               "them inside this call)", "WaitOnStability, HybridConfiguration.handleMigration, statusDatabase.monitorComponent "
+               "do not launch components", "can_memoize / _memoize_populate_component_workdir return arbitrary values"]
+    assumptions = ["ready lists of <= 2 components; another thread sets stop_executing before the turn of any component of the list (or never); an outside component exists that is NOT on the list"]
+
+    def setup(self, c):
+        import experiment.model.errors as errors
+        g = c.ghost
+        g['events'] = []            # ('stageIn'|'run'|'restart'|'fake', name[, extra])
+        g['stop_reads'] = []
+        n = c.choice('ready', 3)
+
+        def mk(i):
+            name = 'stage1.r%d' % i
+            stage_fail = c.one_of('r%d.stageIn' % i, ['ok', 'missing-files', 'other-error'])
+            is_repeat = c.one_of('r%d.isRepeat' % i, [False, True]) if i == 0 else False
+
+            def stage_in(c, stageData=None):
+                g['events'].append(('stageIn', name))
+                if stage_fail == 'missing-files':
+                    c.raise_(errors.DataReferenceFilesDoNotExistError, [])
+                if stage_fail == 'other-error':
+                    c.raise_(RuntimeError, 'disk full')
+            sp = Obj('spec', reference=name, isRepeat=is_repeat, isStaged=False)
+            import experiment.runtime.engine as engine_mod
+            eng = Obj('engine', _cls=engine_mod.RepeatingEngine if is_repeat else engine_mod.Engine,
+                      job=Obj('job', reference=name, stageIndex=1), stateUpdates='updates-' + name)
+            comp = Obj('ComponentState:' + name, _cls=experiment.runtime.workflow.ComponentState, specification=sp, stageIndex=1,
+                       isStaged=False, stageIn=Extern('stageIn', stage_in), engine=eng, producers=[],
+                       run=Extern('ComponentState.run', lambda c: g['events'].append(('run', name))),
+                       notifyFinished='finished-' + name, notifyPostMortem='postmortem-' + name,
+                       memoization_hash='h', isAlive=Extern('isAlive', lambda c: True))
+            return comp
+        ready = [mk(i) for i in range(n)]
+        # the controller is told to stop (by another thread) before the turn of ready[stop_at]; None = never
+        stop_at = c.one_of('stop_before_turn', [None] + list(range(n))) if n else None
+
+        def turn():
+            seen = []
+            for e in g['events']:
+                if e[0] in ('stageIn', 'fake') and e[1] not in seen:
+                    seen.append(e[1])
+            return len(seen)
+
+        def read_stop():
+            v = stop_at is not None and turn() >= stop_at
+            g['stop_reads'].append(v)
+            return v
+        memo = c.one_of('memoized', [False, True]) if n else False
+        restart_sources = c.one_of('do_restart_sources', [None, 'stage1']) if n else None
+        staged = set()
+
+        def fake(c, comp, state):
+            g['events'].append(('fake', comp.specification.reference, state))
+            staged.add(comp)
+
+        def restart(c, comp, exitReason=None, returncode=None):
+            g['events'].append(('restart', comp.specification.reference))
+            return c.one_of('restart-code', [codes.restartCodes['RestartInitiated'], codes.restartCodes['RestartNotRequired'],
+                                             codes.restartCodes['RestartCouldNotInitiate']])
+        from pyvc.values import Volatile
+        this = Obj('controller', log=NULLLOG, _start_sleeping=c.one_of('_start_sleeping', [False, True]) if n else False,
+                   stop_executing=Volatile(read_stop), stage=Extern('stage', lambda c: Obj('stage', index=1)),
+                   can_memoize=Extern('can_memoize', lambda c, comp, fuzzy: ({'stage': 0, 'name': 'x', 'instance': 'i'} if memo else None)),
+                   _memoization_fuzzy=False,
+                   _memoize_populate_component_workdir=Extern('_memoize_populate', lambda c, comp, doc: True),
+                   _fake_finish_with_state=Extern('_fake_finish_with_state', fake),
+                   do_stage_data=None, comp_staged_in=staged,
+                   statusDatabase=Obj('statusdb', monitorComponent=Extern('monitorComponent', lambda c, comp: None)),
+                   enable_optimizer=False, optimizer_repeat=None, controllerPool='pool',
+                   do_restart_sources=({1: True} if restart_sources else None),
+                   _restartComponent=Extern('_restartComponent', restart),
+                   finishedCheck=Extern('finishedCheck', lambda c, *a: None), postMortemCheck=Extern('postMortemCheck', lambda c, *a: None),
+                   handleError=Extern('handleError', lambda c, *a: None))
+        return State(args=[this, list(ready)], this=this, ready=ready, staged=staged, n=n, stop_at=stop_at)
+
+    def externs(self, c, st):
+        g = c.ghost
+        chain = Obj('observable')
+        chain.pipe = Extern('pipe', lambda c, *a: chain)
+        chain.subscribe = Extern('subscribe', lambda c, **k: g['events'].append(('subscribe',)))
+
+        def transition(c, comp, reason, returncode=None):
+            g['events'].append(('final', comp.specification.reference, reason))
+        hyb = Obj('hybrid', handleMigration=Extern('handleMigration', lambda c, *a: None))
+        return {'WaitOnStability': Extern('WaitOnStability', lambda c, t: None),
+                'reactivex.merge': Extern('reactivex.merge', lambda c, *a: chain),
+                'op.observe_on': Extern('op.observe_on', lambda c, *a: 'op'), 'op.filter': Extern('op.filter', lambda c, *a: 'op'),
+                'op.take_while': Extern('op.take_while', lambda c, *a: 'op'),
+                'experiment.runtime.utilities.rx.report_exceptions': Extern('report_exceptions', lambda c, f, *a, **k: f),
+                'experiment.appenv.HybridConfiguration.defaultConfiguration': Extern('defaultConfiguration', lambda c: hyb),
+                'TransitionComponentToFinalState': Extern('TransitionComponentToFinalState', transition),
+                'traceback.format_exc': Extern('format_exc', lambda c: 'tb')}
+
+    def ensures(self, c, st, out):
+        ev = c.ghost['events']
+        names = [x.specification.reference for x in st.ready]
+        acts = [e for e in ev if e[0] in ('stageIn', 'run', 'restart', 'fake', 'final')]
+        staged_ok = []          # staged in this call without an error, in order
+        for i, e in enumerate(ev):
+            if e[0] == 'stageIn':
+                comp = st.ready[names.index(e[1])] if e[1] in names else None
+                staged_ok.append((e[1], i))
+        launched = [(e[1], i) for i, e in enumerate(ev) if e[0] in ('run', 'restart')]
+        in_set = {x.specification.reference for x in st.staged}
+        cl = [('only-components-of-the-ready-list-are-touched', all(e[1] in names for e in acts)),
+              ('each-component-is-staged-and-launched-at-most-once',
+               all(sum(1 for e in ev if e[0] == k and e[1] == nm) <= 1 for nm in names for k in ('stageIn', 'run', 'restart'))),
+              ('launched-only-after-being-staged-in-this-call',
+               all(any(nm == s and j < i for (s, j) in staged_ok) for (nm, i) in launched)),
+              ('launched-components-are-recorded-as-staged', all(nm in in_set for (nm, _) in launched))]
+        # once the controller has been told to stop, no further component of the list is staged in or launched
+        if st.stop_at is not None:
+            late = names[st.stop_at:]
+            cl.append(('nothing-is-staged-after-the-controller-stopped',
+                       not any(e[0] in ('stageIn', 'run', 'restart') and e[1] in late for e in ev)))
+            cl.append(('components-left-over-when-the-controller-stops-are-shut-down',
+                       bool(st.this._start_sleeping) or all(any(e[0] == 'fake' and e[1] == nm and e[2] == codes.SHUTDOWN_STATE for e in ev)
+                                                            for nm in late) or out.kind == 'raise'))
+        if out.kind == 'raise':
+            # only an unexpected staging error may escape; nothing is launched then
+            cl.append(('a-staging-error-launches-nothing', not launched))
+        else:
+            # every component whose staging succeeded is launched (run or source restart), the others are finalised
+            failed = {e[1] for i, e in enumerate(ev) if e[0] == 'fake'}
+            cl.append(('every-staged-component-is-launched', all(any(nm == l for (l, _) in launched) for (nm, _) in staged_ok
+                                                                 if nm not in failed)))
+        return cl
+
+    def cross_compare(self, *a):
+        return []
+
+
 class DoneSetFrames(Lemma):
     """writes-frame: comp_done and comp_staged_in are only ever extended (.add) outside __init__, and only by functions
     that are under contract here or listed as startup/shutdown paths; handleError ends by setting stop_executing."""
@@ -285,5 +432,5 @@ class ReadyIsStable(Lemma):
                 ('final-producers-stay-final', Implies(And(rely, fin0), fin1))]
 
 
-TARGETS = [Schedule(), FinishedCheck()]
+TARGETS = [Schedule(), FinishedCheck(), FinalizeSubmit()]
 LEMMAS = [DoneSetFrames(), ReadyIsStable()]
